@@ -76,11 +76,34 @@ func (m *Mast) loadPersisted(ctx context.Context, l string) (*mastNode, error) {
 	if m.debug {
 		fmt.Printf("loaded node %s->%v\n", l, node)
 	}
-	validateNode(ctx, &node, m)
+	err = checkLoadedNode(&node, m)
+	if err != nil {
+		return nil, fmt.Errorf("invalid node %s: %w", l, err)
+	}
 	if m.nodeCache != nil {
 		m.nodeCache.Add(cacheKey, &node)
 	}
 	return &node, nil
+}
+
+// checkLoadedNode reports a freshly deserialized node whose entry and link
+// counts do not match or whose keys are not strictly ascending under the
+// tree's key order (corrupt node, or wrong RemoteConfig.KeyCompare) as an
+// error; such input must not panic.
+func checkLoadedNode(node *mastNode, m *Mast) error {
+	if len(node.Key) != len(node.Value) || len(node.Link) != len(node.Key)+1 {
+		return fmt.Errorf("%d keys, %d values and %d links", len(node.Key), len(node.Value), len(node.Link))
+	}
+	for i := 1; i < len(node.Key); i++ {
+		cmp, err := m.keyOrder(node.Key[i-1], node.Key[i])
+		if err != nil {
+			return fmt.Errorf("key order: %w", err)
+		}
+		if cmp >= 0 {
+			return fmt.Errorf("keys out of order; ensure using same key order function as source")
+		}
+	}
+	return nil
 }
 
 func unmarshalNode(m *Mast, nodeBytes []byte, l string, node *mastNode) error {
@@ -130,6 +153,9 @@ func unmarshalStringNode(m *Mast, nodeBytes []byte, l string, node *mastNode) er
 		}
 		node.Key[i] = newKey
 		node.Value[i] = newValue
+	}
+	if len(stringNode.Link) != 0 && len(stringNode.Link) != len(stringNode.Key)+1 {
+		return fmt.Errorf("cannot unmarshal %s: mismatched keys and links", l)
 	}
 	if stringNode.Link != nil {
 		for i, l := range stringNode.Link {
